@@ -133,6 +133,74 @@ func main() {
 		if !assignsNew && !inPlace {
 			lib.Fatalf("syncEndpoints no longer resets c.loadbalancer in a way this extractor knows (neither an assignment nor Range/Delete)")
 		}
+		// 4. the decision of controllers.GatewayHealthCheck: where it reports healthy
+		const hfile = "pkg/gateway/controllers/upstream_controller.go"
+		hf := g.ParseFile(hfile)
+		hc := lib.FuncDecl(hf, "", "GatewayHealthCheck")
+		if hc == nil || hc.Body == nil {
+			lib.Fatalf("GatewayHealthCheck not found in %s", hfile)
+		}
+		trueCalls, falseCalls := 0, 0
+		trueGuard, outerGuard, inElse := "", "", false
+		var walk func(n ast.Node, guards []string, elseOf []string)
+		expr := func(e ast.Expr) string {
+			if be, ok := e.(*ast.BinaryExpr); ok {
+				return sel(be.X) + " " + be.Op.String() + " " + sel(be.Y)
+			}
+			return sel(e)
+		}
+		walk = func(n ast.Node, guards []string, elseOf []string) {
+			switch x := n.(type) {
+			case *ast.IfStmt:
+				c := expr(x.Cond)
+				walk(x.Body, append(append([]string{}, guards...), c), elseOf)
+				if x.Else != nil {
+					walk(x.Else, guards, append(append([]string{}, elseOf...), c))
+				}
+				return
+			case *ast.BlockStmt:
+				for _, st := range x.List {
+					walk(st, guards, elseOf)
+				}
+				return
+			case *ast.ExprStmt:
+				if c, ok := x.X.(*ast.CallExpr); ok && strings.HasSuffix(sel(c.Fun), ".UpdateStatus") && len(c.Args) == 3 {
+					switch sel(c.Args[0]) {
+					case "true":
+						trueCalls++
+						if len(guards) > 0 {
+							trueGuard = guards[len(guards)-1]
+						}
+						if len(elseOf) > 0 {
+							inElse = true
+							outerGuard = elseOf[len(elseOf)-1]
+						}
+					case "false":
+						falseCalls++
+					default:
+						lib.Fatalf("GatewayHealthCheck calls UpdateStatus with a computed health value: shape unknown")
+					}
+				}
+				return
+			case *ast.SwitchStmt, *ast.TypeSwitchStmt:
+				ast.Inspect(n, func(m ast.Node) bool {
+					if c, ok := m.(*ast.CallExpr); ok && strings.HasSuffix(sel(c.Fun), ".UpdateStatus") {
+						lib.Fatalf("GatewayHealthCheck calls UpdateStatus inside a switch: shape unknown")
+					}
+					return true
+				})
+			}
+		}
+		walk(hc.Body, nil, nil)
+		readsStatus := false
+		ast.Inspect(hc.Body, func(n ast.Node) bool {
+			if c, ok := n.(*ast.CallExpr); ok && sel(c.Fun) == "result.StatusCode" && len(c.Args) == 1 {
+				if u, ok := c.Args[0].(*ast.UnaryExpr); ok && u.Op == token.AND && sel(u.X) == "statusCode" {
+					readsStatus = true
+				}
+			}
+			return true
+		})
 		var b strings.Builder
 		b.WriteString("namespace KG.Gen.C03\n")
 		b.WriteString("/-! shape of dispatcher.ServeHTTP in " + file + " -/\n")
@@ -143,6 +211,11 @@ func main() {
 		fmt.Fprintf(&b, "/-- location.Scheme/Host come from url.Parse(<picked>.Endpoint) -/\ndef forwardHostFromPicked : Bool := %v\n", hostOK)
 		fmt.Fprintf(&b, "/-- the proxy handler uses <picked>.ProxyTransport / .PorxyUpgradeTransport -/\ndef transportFromPicked : Bool := %v\n", tsOK)
 		fmt.Fprintf(&b, "/-- syncEndpoints resets the cursors by assigning a new sync.Map to c.loadbalancer (overwriting the mutex inside) -/\ndef lbResetAssignsNewMap : Bool := %v\n", assignsNew)
+		b.WriteString("/-! the decision of controllers.GatewayHealthCheck in " + hfile + " -/\n")
+		fmt.Fprintf(&b, "/-- calls `UpdateStatus(true, …)` / `UpdateStatus(false, …)` -/\ndef healthTrueCalls : Nat := %d\ndef healthFalseCalls : Nat := %d\n", trueCalls, falseCalls)
+		fmt.Fprintf(&b, "/-- the innermost condition guarding the `UpdateStatus(true, …)` call -/\ndef healthTrueGuard : String := %q\n", trueGuard)
+		fmt.Fprintf(&b, "/-- … which sits in the else branch of this condition -/\ndef healthTrueElseOf : String := %q\ndef healthTrueInElse : Bool := %v\n", outerGuard, inElse)
+		fmt.Fprintf(&b, "/-- `statusCode` is what `result.StatusCode(&statusCode)` reports -/\ndef healthReadsStatusCode : Bool := %v\n", readsStatus)
 		b.WriteString("end KG.Gen.C03\n")
 		g.Emit("C03.lean", b.String())
 	})
